@@ -703,7 +703,7 @@ pub fn execute(rp: &RefPhase, sched: &SchedSpec, want_log: bool) -> (Vec<Violati
     let mut cfg = shuttle::Config::new();
     cfg.stack_size = 1 << 20;
     cfg.failure_persistence = shuttle::FailurePersistence::None;
-    cfg.max_steps = shuttle::MaxSteps::FailAfter(2_000_000);
+    cfg.max_steps = shuttle::MaxSteps::None; // cooksim's own cap (SimCtx::max_steps) applies
     cfg.silence_warnings = true;
     let env2 = env.clone();
     let ops_done = Arc::new(std::sync::atomic::AtomicU64::new(0));
